@@ -15,7 +15,10 @@ MANIFEST = dict(
          "C13_old_streamed_refuted show that the code before the repairs violates them.  The model is run against a real "
          "ChainTracker<ChainMonitor> (and, in the handler sub-domain, RootHandler AddBlock/RemoveBlock/BlockChunk) on "
          "every run: mined regtest headers, real TxoProofs and schnorr attestations, defective variants of every check, "
-         "window sizes 0..100, heights around the retarget interval and the u32 edge; the ChainTrackerEntry image is "
+         "window sizes 0..100, heights around the retarget interval and the u32 edge, and -- in the handler sub-domain, a whole "
+         "signer over a KVV store on Regtest and on Testnet (compiled-in checkpoints) -- restarts from the store between requests "
+         "(model: a restart moves nothing unless the tracker is still at height 0 on a network with a checkpoint; monitor: the "
+         "restarted tracker equals the stored entry and the correct next block is accepted); the ChainTrackerEntry image is "
          "compared with the model after every call and with its own pre-image after every Err.",
     design="§4 C13, §5 F2",
     note=lib.TB + "Oracle inputs computed with the real verifiers (not modelled): Header::validate_pow, TxoProof::verify "
@@ -34,6 +37,7 @@ PINNED = ["C13_advance_only_valid", "C13_proof_or_documented_bypass", "C13_quoru
 # implementation agrees with and by the class recorded by the harness monitors
 CLASS_POP = "remove-window-popped-before-validation"
 CLASS_STREAM = "streamed-reject-stale-decode"
+CLASS_RESTART = "restart-moves-the-tracker"
 
 
 def _strip(c):
@@ -43,6 +47,8 @@ def _strip(c):
 def _classify(c):
     """class of a monitor hit: the window shortened by a refused removal, or the stale decode state"""
     cls = set()
+    if c.get("restart_violations"):
+        return {CLASS_RESTART}
     if c.get("invalid_accepted") or c.get("store_violations"):
         # whatever follows an accepted invalid block is a consequence of it
         return {"other"}
@@ -76,14 +82,15 @@ def run(res):
     hand = lib.run_harness("tracker", "handler", res.seed, n_hand, res.tier)
     cases = scripted["CASE"] + seq["CASE"] + hand["CASE"]
     imports = ["Model.TrackerCheck"]
-    tcases = scripted["CASE"] + seq["CASE"]
+    tcases = [c for c in scripted["CASE"] if c["kind"] != "handler"] + seq["CASE"]
+    hcases = [c for c in scripted["CASE"] if c["kind"] == "handler"] + hand["CASE"]
     fails = lib.coq_failures(imports, "tracker_case", "check_tracker", [c["coq"] for c in tcases], "c13_seq")
-    hfails = lib.coq_failures(imports, "tracker_case", "check_handler", [c["coq"] for c in hand["CASE"]], "c13_hand")
+    hfails = lib.coq_failures(imports, "tracker_case", "check_handler", [c["coq"] for c in hcases], "c13_hand")
     known = {f.get("class"): f for f in lib.known_findings("C13")}
 
     # the property itself on the implementation's answers
     hits = [c for c in cases if c.get("atomicity_violations") or c.get("later_request_violations") or c.get("invalid_accepted")
-            or c.get("store_violations")]
+            or c.get("store_violations") or c.get("restart_violations")]
     by_class = {}
     for c in hits:
         for k in _classify(c):
@@ -96,6 +103,8 @@ def run(res):
         c = min(cs, key=lambda x: len(x["ops"]))
         what = {
             CLASS_POP: "a refused remove_block shortened the remembered header window and the correct removal that followed was refused (implementation trace)",
+            CLASS_RESTART: "a restart from the store moved the tracker (tip / height / remembered headers differ from the stored ones, "
+                           "or the correct next block is refused after it) although no block was validated (implementation trace)",
             CLASS_STREAM: "after a refused streamed block the stream of the next correct block panics in the channel monitors: the refusal left their decode state behind (implementation trace)",
         }.get(k, "the tracker accepted an invalid block, changed state on a refusal, or the store disagrees with an acknowledged block (implementation trace)")
         res.violation(what, {"domain": "tracker-" + c["kind"], "seed": res.seed, "class": k, "histories_this_run": len(cs),
@@ -108,7 +117,7 @@ def run(res):
     variants = (("(check_tracker_v true true)", {CLASS_POP}),
                 ("(check_tracker_v false false)", {CLASS_STREAM}),
                 ("(check_tracker_v true false)", {CLASS_POP, CLASS_STREAM}))
-    accounted = (set(by_class) - {"other"}) | set(known)
+    accounted = (set(by_class) - {"other", CLASS_RESTART}) | set(known)
     explained, follows = set(), {}
     if fails:
         sub = [tcases[i]["coq"] for i in fails]
@@ -121,7 +130,7 @@ def run(res):
                         explained.add(i)
     unexplained = [("seq", i) for i in fails if i not in explained] + [("handler", i) for i in hfails]
     for dom, i in unexplained[:3]:
-        c = tcases[i] if dom == "seq" else hand["CASE"][i]
+        c = tcases[i] if dom == "seq" else hcases[i]
         diff = lib.coq_eval(imports, ("explain false true (%s)" if dom == "seq" else "explain_h (%s)") % c["coq"], "c13_show")
         res.violation("ChainTracker disagrees with Model.Tracker (correspondence tracker-%s)" % c["kind"],
                       {"correspondence": "tracker-" + c["kind"], "theorem": "C13_reject_atomic / C13_advance_only_valid",
@@ -150,7 +159,10 @@ def run(res):
                 "full-block proof, external proof without stream, incomplete stream, stream of another block} x {add, remove} "
                 "+ wrong supplied header / filter header, removal below the window; after every refusal the next request is a "
                 "correct one.  A history is non-trivial when it has an accepted request, a refused one and an accepted correct "
-                "request after a refusal; distinct by full request list.  handler: the same requests as wire messages.",
+                "request after a refusal; distinct by full request list.  handler: the same requests as wire messages to a signer over "
+                "a MemoryKVVStore, half of them on Testnet (latest checkpoint at height 2862000, start heights 0 / small / 2013..2016 / "
+                "4031 / 2^32-2..), with a restart from the store (HandlerBuilder::build -> Node::restore_node) before ~1 in 5 requests, "
+                "followed by a correct request.",
         "samples": [_strip(cases[0]), _strip(seq["CASE"][0])] + ([_strip(hand["CASE"][0])] if hand["CASE"] else []),
         "result_distribution": kinds,
         "traces_validated_against_impl": len(cases),
